@@ -403,7 +403,7 @@ func (t *State) PlayForMiner(blockid []byte) error {
 	var err error
 	defer func() {
 		if err != nil {
-			t.clearBalanceCache()
+			t.resetMemAfterFailedBlock()
 		}
 	}()
 	for _, tx := range block.Transactions {
@@ -426,9 +426,9 @@ func (t *State) PlayForMiner(blockid []byte) error {
 	// 更新不可逆区块高度
 	curIrreversibleBlockHeight := t.meta.GetIrreversibleBlockHeight()
 	curIrreversibleSlideWindow := t.meta.GetIrreversibleSlideWindow()
-	updateErr := t.meta.UpdateNextIrreversibleBlockHeight(block.Height, curIrreversibleBlockHeight, curIrreversibleSlideWindow, batch)
-	if updateErr != nil {
-		return updateErr
+	err = t.meta.UpdateNextIrreversibleBlockHeight(block.Height, curIrreversibleBlockHeight, curIrreversibleSlideWindow, batch)
+	if err != nil {
+		return err
 	}
 	//更新latestBlockid
 	err = t.updateLatestBlockid(block.Blockid, batch, "failed to save block")
@@ -458,6 +458,13 @@ func (t *State) PlayAndRepost(blockid []byte, needRepost bool, isRootTx bool) er
 	}
 	t.utxo.Mutex.Lock()
 	defer t.utxo.Mutex.Unlock()
+	succ := false
+	defer func() {
+		if !succ {
+			// 区块执行失败, batch没有落盘, 但是内存里的cache/总资产已经被改动过了
+			t.resetMemAfterFailedBlock()
+		}
+	}()
 	// 下面开始处理unconfirmed的交易
 	unconfirmToConfirm, undoDone, err := t.processUnconfirmTxs(block, batch, needRepost)
 	if err != nil {
@@ -519,6 +526,7 @@ func (t *State) PlayAndRepost(blockid []byte, needRepost bool, isRootTx bool) er
 
 	t.log.Debug("paly and repost succ", "blockId", utils.F(block.Blockid))
 
+	succ = true
 	return nil
 }
 
@@ -666,6 +674,7 @@ func (t *State) Walk(blockid []byte, ledgerPrune bool) error {
 	// utxoVM回滚需要回滚区块
 	err = t.procUndoBlkForWalk(undoBlocks, undoDone, ledgerPrune)
 	if err != nil {
+		t.resetMemAfterFailedBlock()
 		t.log.Warn("walk fail,because undo block fail", "err", err)
 		return fmt.Errorf("walk undo block fail")
 	}
@@ -674,6 +683,7 @@ func (t *State) Walk(blockid []byte, ledgerPrune bool) error {
 	// utxoVM执行需要执行区块
 	err = t.procTodoBlkForWalk(todoBlocks)
 	if err != nil {
+		t.resetMemAfterFailedBlock()
 		t.log.Warn("walk fail,because todo block fail", "err", err)
 		return fmt.Errorf("walk todo block fail")
 	}
@@ -827,6 +837,17 @@ func (t *State) NewBatch() kvdb.Batch {
 
 func (t *State) GetLDB() kvdb.Database {
 	return t.ldb
+}
+
+// resetMemAfterFailedBlock forgets every in-memory view that may already carry effects of a
+// block batch which was not written: utxo / balance / version caches, the running total and
+// the pending meta copy. Persisted data is untouched, so the next query reads it again.
+func (t *State) resetMemAfterFailedBlock() {
+	t.ClearCache()
+	t.utxo.ReloadTotal()
+	t.meta.MutexMeta.Lock()
+	t.meta.MetaTmp = proto.Clone(t.meta.Meta).(*pb.UtxoMeta)
+	t.meta.MutexMeta.Unlock()
 }
 
 func (t *State) ClearCache() {
